@@ -47,7 +47,7 @@ def run(ctx: Context) -> None:
     dimconv = p.cls(DIMCONV)
     ctx.rule('R05.1', "select_indexes applies the selector positionally (isel) to the dataset (geometry dropped on request) restricted to variables that use a selected dimension; the selector pairs column i with dimension i of the kind's grid_dimensions and keeps request order", floor=16)
     ctx.rule('R05.2', "extract_points looks every point up once in request order; 'error' raises with exactly the positions whose lookup is None; the selected indexes and their positional labels are the same sequence under the same `is not None` filter", floor=8)
-    ctx.rule('R05.3', "missing-point policy tables agree between select_points, extract_points, extract_dataframe and the command line; 'error' is forwarded, the others mean drop; the merge is outer exactly for 'fill'", floor=6)
+    ctx.rule('R05.3', "missing-point policy tables agree between select_points, extract_points, extract_dataframe and the command line; 'error' is forwarded, the others mean drop; the merge is outer exactly for 'fill', and what 'fill' promotes is saved as promoted", floor=7)
     ctx.rule('R05.4', "single-index selection uses a fresh dimension name and squeezes exactly that dimension", floor=4)
     ctx.rule('R05.6', "the columns of the input table are attached by row position: the table is re-indexed 0..n-1 (the labels extract_points gives its points) before it is merged, whatever index the DataFrame carries", floor=2)
     ctx.rule('R05.5', "point selection finds the cell through Convention.get_index_for_point: an 'intersects' query of the point itself, the first (lowest) hit wound to the native index, and no way to answer None other than an empty hit set (facts shared with C04 R04.1-R04.4)", floor=9)
@@ -445,6 +445,32 @@ def run(ctx: Context) -> None:
 
 
 
+    # ------------------------------------------------------------------ R05.3 promoted variables lose their integer encoding
+    with ctx.section('R05.3 encoding of filled variables'):
+        ed2 = ctx.func(f"{PX}.extract_dataframe")
+        from .common import guards as _guards
+        dels = []
+        for n in ast.walk(ed2.node):
+            tgt = None
+            if isinstance(n, ast.Delete):
+                tgt = [t for t in n.targets if isinstance(t, ast.Subscript) and const_value(t.slice, None) == 'dtype']
+            elif isinstance(n, ast.Call) and isinstance(n.func, ast.Attribute) and n.func.attr == 'pop' and n.args and const_value(n.args[0], None) == 'dtype':
+                tgt = [n.func]
+            if tgt and 'encoding' in norm_text(tgt[0].value if isinstance(tgt[0], ast.Subscript) else tgt[0].value):
+                dels.append(n)
+        ok = False
+        why = 'the source dtype encoding is kept'
+        if len(dels) == 1:
+            g = _guards(ed2, dels[0])
+            texts = {t for t, pol in g if pol}
+            fill_only = any(t in ("join == 'outer'", "missing_points == 'fill'") for t in texts)
+            promoted = any('numpy.floating' in t for t in texts) and any('numpy.integer' in t for t in texts)
+            keeps_fill = any("'_FillValue' in" in t and not pol for t, pol in g)
+            ok = fill_only and promoted and keeps_fill
+            why = f"del encoding['dtype'] under {sorted(texts)}"
+        ctx.check('R05.3', ok, "with 'fill', variables promoted to floating point to hold the misses do not keep an integer on-disk dtype without a fill value (saving would turn the missing values into numbers)", ed2,
+                  dels[0] if dels else ed2.node, construct=f"extract_dataframe: {why}")
+
     # ------------------------------------------------------------------ R05.6 table rows by position
     with ctx.section('R05.6'):
         d2d = ctx.func(f"{PX}._dataframe_to_dataset")
@@ -486,6 +512,7 @@ from ..variants import V  # noqa: E402
 _B = 'src/emsarray/conventions/_base.py'
 _P = 'src/emsarray/operations/point_extraction.py'
 VARIANTS = [
+    V('C05', 'filled-integers-keep-dtype', 'src/emsarray/operations/point_extraction.py', "                del variable.encoding['dtype']", "                pass", 'R05.3'),
     V('C05', 'table-keeps-own-index', 'src/emsarray/operations/point_extraction.py', "    dataframe = dataframe.reset_index(drop=True)", "    dataframe = dataframe.copy()", 'R05.6'),
     V('C05', 'sel-for-isel', _B, "        return dataset.isel(selector)", "        return dataset.sel(selector)", 'R05.1'),
     V('C05', 'column-reversed', _B, "            dimension: (index_dimension, index_array[:, i])", "            dimension: (index_dimension, index_array[:, -1 - i])", 'R05.1'),
